@@ -2,11 +2,13 @@ SPECIFICATION Spec
 CONSTANTS
   ClassLevelPropagate = FALSE
   ParamResolve = FALSE
+  InitRestated = FALSE
   OriginFromSuper = TRUE
   AllowModifyBusy = FALSE
   Parent <- Chain3
   Mode = "shape"
   QSels = {{}}
+  Vias = {"api"}
   InstKeys = {}
   WithModify = FALSE
   AllFlags = FALSE
